@@ -83,6 +83,24 @@ def checkWitness (h : History) (order : List Nat) : Bool :=
   rtOk h order 0 &&
   legalFrom [] (order.map (fun i => (opAt h i).kind))
 
+/-! ### a history laid out along a single log (used by `C02.history_linearizable`) -/
+
+/-- the state of the table after the writes among a list of operations, in that order -/
+def runWrites (h : History) : List Nat → St → St
+  | [], s => s
+  | i :: rest, s =>
+    match (opAt h i).kind with
+    | .write k v => runWrites h rest ((k, v) :: s)
+    | .read _ _ => runWrites h rest s
+
+/-- interleave the log operations (in log order) with the blocks of local reads:
+`reads q` are the reads answered from the state after `q` log operations -/
+def build (reads : Nat → List Nat) : Nat → List Nat → List Nat
+  | p, [] => reads p
+  | p, x :: rest => reads p ++ x :: build reads (p + 1) rest
+
+def kindsOf (h : History) (l : List Nat) : List Kind := l.map (fun i => (opAt h i).kind)
+
 /-! ### line protocol
 `reset` → `ok`
 `w INV RESP|- K V` → `ok`      (append a write)
